@@ -209,6 +209,9 @@ func checkC02(c *Ctx) {
 		for dev := 0; dev < nt.N; dev++ {
 			for pos := 0; pos < 3; pos++ {
 				jobs = append(jobs, job{nt.N, nt.T, 0, "poly", dev, pos}, job{nt.N, nt.T, 0, "key", dev, pos}, job{nt.N, nt.T, 0, "nopoly", dev, pos})
+				if pos == 2 || c.Thorough() {
+					jobs = append(jobs, job{nt.N, nt.T, 0, "polyext", dev, pos}, job{nt.N, nt.T, 0, "polycut", dev, pos}, job{nt.N, nt.T, 0, "polyswap", dev, pos})
+				}
 			}
 		}
 	}
@@ -255,6 +258,32 @@ func otherPoly(orig []byte) ([]byte, error) {
 	return nk.PubPolyBytes()
 }
 
+// reshapedPoly returns the polynomial with its commitment list lengthened by one valid point ("ext"),
+// shortened by one ("cut"), or with the last two commitments swapped ("swap"): same constant term.
+func reshapedPoly(orig []byte, how string) ([]byte, error) {
+	kr, err := dkg.LoadPubPolyBLSKeyringFromBytes(oracle.NewSuite(), orig)
+	if err != nil {
+		return nil, err
+	}
+	_, cs := kr.PubPoly.Info()
+	if len(cs) < 2 {
+		return nil, fmt.Errorf("polynomial too short")
+	}
+	switch how {
+	case "ext":
+		cs = append(cs, oracle.NewSuite().Point().Add(cs[len(cs)-1], oracle.NewSuite().Point().Base()))
+	case "cut":
+		cs = cs[:len(cs)-1]
+	case "swap":
+		if len(cs) < 3 {
+			cs = append(cs, cs[1])
+		}
+		cs[len(cs)-1], cs[len(cs)-2] = cs[len(cs)-2], cs[len(cs)-1]
+	}
+	nk := &dkg.BLSKeyring{PubPoly: share.NewPubPoly(oracle.NewSuite(), nil, cs)}
+	return nk.PubPolyBytes()
+}
+
 func runC02Deviant(c *Ctx, n, t int, family string, dev, pos int, seed uint64, wit map[string]interface{}) {
 	w, err := world.NewWorld(world.Options{N: n, T: t, Seed: seed, OddNames: seed%3 == 1})
 	if err != nil {
@@ -280,6 +309,12 @@ func runC02Deviant(c *Ctx, n, t int, family string, dev, pos int, seed uint64, w
 		switch family {
 		case "poly":
 			np, err := otherPoly(r.PubPolyBz)
+			if err != nil {
+				return res
+			}
+			r.PubPolyBz = np
+		case "polyext", "polycut", "polyswap":
+			np, err := reshapedPoly(r.PubPolyBz, family[4:])
 			if err != nil {
 				return res
 			}
